@@ -312,6 +312,10 @@ class Split(Part):
             if mdl.n and mdl.flags.tds and not mdl.flags.pflow and mdl.group in ('SynGen', 'Exciter', 'TurbineGov', 'PSS'):
                 for k in range(min(mdl.n, 2)):
                     out.append(dict(kind='offline', model=mname, k=k))
+        for types in (('GENROU', 'GENROU'), ('GENROU', 'GENCLS'), ('GENCLS', 'GENROU')):
+            out.append(dict(kind='shared_offline', types=list(types)))
+        for t in ('GENROU', 'GENCLS'):
+            out.append(dict(kind='both_offline', types=[t]))
         for gp, gq in ((0.5, 0.5), (0.3, 0.7), (0.7, 0.3)):
             for types in (('GENROU', 'GENROU'), ('GENROU', 'GENCLS'), ('GENCLS', 'GENCLS')):
                 out.append(dict(kind='split', gp=gp, gq=gq, types=list(types)))
@@ -344,10 +348,20 @@ class Split(Part):
                     for i in range(b.models[mname].n):
                         ss.add(mname, {k: v[i] for k, v in d.items() if k != 'uid'})
                 ss.add('GENROU', dict(idx='M1', bus=1, gen='S1', Vn=110, Sn=100, M=8.0))
-                ss.add(case['types'][0], dict(idx='M2a', bus=2, gen='G2', Vn=110, Sn=100, M=6.0, gammap=case['gp'], gammaq=case['gq']))
-                ss.add(case['types'][1], dict(idx='M2b', bus=2, gen='G2', Vn=110, Sn=100, M=5.0, gammap=1 - case['gp'], gammaq=1 - case['gq']))
+                if case['kind'] == 'split':
+                    ss.add(case['types'][0], dict(idx='M2a', bus=2, gen='G2', Vn=110, Sn=100, M=6.0, gammap=case['gp'], gammaq=case['gq']))
+                    ss.add(case['types'][1], dict(idx='M2b', bus=2, gen='G2', Vn=110, Sn=100, M=5.0, gammap=1 - case['gp'], gammaq=1 - case['gq']))
+                elif case['kind'] == 'shared_offline':
+                    # an out-of-service spare machine listed after the online one on the same static generator
+                    ss.add(case['types'][0], dict(idx='M2a', bus=2, gen='G2', Vn=110, Sn=100, M=6.0))
+                    ss.add(case['types'][1], dict(idx='M2b', bus=2, gen='G2', Vn=110, Sn=100, M=5.0, u=0))
+                else:
+                    # static generator G3 and its machine both out of service
+                    ss.PV.u.v[1] = 0
+                    ss.add(case['types'][0], dict(idx='M2a', bus=2, gen='G2', Vn=110, Sn=100, M=6.0))
+                    ss.add(case['types'][0], dict(idx='M3', bus=3, gen='G3', Vn=110, Sn=100, M=5.0, u=0))
                 ss.setup()
-                tag = f'split:{"+".join(case["types"])}'
+                tag = f'{case["kind"]}:{"+".join(case["types"])}'
             systems.quiet_tds(ss)
             if not ss.PFlow.run():
                 out.obs = dict(skipped='power flow failed')
@@ -361,8 +375,22 @@ class Split(Part):
             out.obs = dict(exc=type(e).__name__)
             return out
         # an offline device changes what "consistent data" means: judge truthfulness only; splits must succeed
-        out.obs = dict(case=case, **audit_init(ss, bad, tag, demand_success=(case['kind'] == 'split'),
-                                               undisturbed=(case['kind'] == 'split')))
+        consistent = case['kind'] != 'offline'
+        out.obs = dict(case=case, **audit_init(ss, bad, tag, demand_success=consistent, undisturbed=consistent))
+        if consistent:
+            # static generators are replaced, not duplicated or revived: a static generator is on after initialisation
+            # only if it was on before and no online dynamic generator took it over
+            was_on = {'S1': 1, 'G2': 1, 'G3': 0 if case['kind'] == 'both_offline' else 1}
+            taken = set()
+            for g in ss.SynGen.get_all_idxes():
+                if ss.SynGen.get('u', g, 'v'):
+                    taken.add(ss.SynGen.get('gen', g, 'v'))
+            for sg, on in was_on.items():
+                now = float(ss.StaticGen.get('u', sg, 'v'))
+                exp = 1.0 if (on and sg not in taken) else 0.0
+                if now != exp:
+                    bad(f'static_generator_status_after_init:{case["kind"]}', f'{tag}: static generator {sg} has u = {now} after '
+                        f'initialisation, expected {exp} (was {"on" if on else "off"}, {"taken over" if sg in taken else "not taken over"})')
         if case['kind'] == 'split' and ss.TDS.test_ok is True:
             # the two machines together inject the static generator's power
             idx = [list(m.idx.v).index(i) for m, i in ((getattr(ss, case['types'][0]), 'M2a'),)]
